@@ -551,6 +551,9 @@ var c12Selectors = map[string]string{
 	"recursive-descent":       "$" + strings.Repeat("..a", 3000),
 	"xpath-deep":              "/" + strings.Repeat("a/", 20000) + "b",
 	"xpath-predicates":        "//item" + strings.Repeat("[1]", 5000),
+	// an ancestor step behind a descendant step: the library's ancestor query moves the navigator of
+	// the query that feeds it, which then starts over (found while calibrating the XPath generator)
+	"xpath-descendant-ancestor": "//a//ancestor::item",
 }
 
 func subC12Selector(kind string) string {
@@ -1113,7 +1116,7 @@ func genC12(rng *hx.Rng, tier string, w *hx.Writer) error {
 	for _, k := range c12QueryKinds {
 		scen("signature-share", k, "c12-query", 25*time.Second)
 	}
-	for _, k := range []string{"function-deep-recursion", "filter-function", "deep-brackets", "recursive-descent", "xpath-deep", "xpath-predicates"} {
+	for _, k := range []string{"function-deep-recursion", "filter-function", "deep-brackets", "recursive-descent", "xpath-deep", "xpath-predicates", "xpath-descendant-ancestor"} {
 		k := k
 		jobs = append(jobs, &c12job{
 			c:   hx.Case{Entry: "-", Op: 0, Args: hx.L(hx.B([]byte("selector")), hx.B([]byte(k))), Tags: []string{"selector", "k:" + k, "nt"}},
@@ -1132,6 +1135,9 @@ func genC12(rng *hx.Rng, tier string, w *hx.Writer) error {
 					return "selector-crash", "the selector " + sel + " (driver sub c12-selector " + k + ") kills the process: " + panicLine
 				case "H":
 					return "selector-hang", "the selector " + sel + " (driver sub c12-selector " + k + ") did not finish"
+				}
+				if k == "xpath-descendant-ancestor" {
+					return "xpath-ancestor-axis-spin", "the selector " + sel + " (driver sub c12-selector " + k + "): " + out
 				}
 				return "selector-hang", out
 			},
